@@ -5,8 +5,7 @@ Strings are their UTF-8 byte lists (lengths in the code are taken after
 `.encode('utf-8')`, except the emptiness tests which agree on both).
 -/
 import Paho.Gen.ValidateConsts
-import Paho.Gen.Matcher
-import Paho.Model.Trie
+import Paho.Model.Split
 namespace Paho
 
 /-- exceptions the validation layer can raise -/
